@@ -24,6 +24,10 @@ type Instruction interface {
 // identify. The entrypoint is the only well-defined jump target comming from
 // outside of the program.
 func Parse[T Instruction](entrypoint model.Addr, seq []T) ([][]T, error) {
+	if len(seq) == 0 {
+		return nil, fmt.Errorf("no instructions to split into basic blocks")
+	}
+
 	sort.Slice(seq, func(i, j int) bool { return seq[i].Begin() < seq[j].Begin() })
 
 	seqs := pipelineApply([][]T{seq}, splitByAddress[T], splitByJumps[T])
